@@ -109,6 +109,15 @@ func init() {
 			}
 			return e.call(caller, 0, fn, a)
 		},
+		"vpLiveGoroutines": func(e *Exec, _ *frame, _ *ssa.Function, a []Value) Value {
+			n := 0
+			for _, g := range e.gs[1:] {
+				if !g.done {
+					n++
+				}
+			}
+			return e.mkInt(int64(n))
+		},
 		"vpReplayLabel": func(e *Exec, _ *frame, _ *ssa.Function, a []Value) Value { return a[0] },
 		"vpHash64":      vpHash64,
 		"vpNote": func(e *Exec, _ *frame, _ *ssa.Function, a []Value) Value {
